@@ -9,7 +9,7 @@ use crate::runner::{Case, Ctx, Property, Tier, Verdict};
 pub struct C20;
 
 const PROVENANCE: &[&str] = &[
-    "vue-named", "vue-aliased", "vue-other-export-as-defineComponent", "vue-namespace-member",
+    "vue-named", "vue-aliased-plus-local-same-name", "vue-aliased", "vue-other-export-as-defineComponent", "vue-namespace-member",
     "local-function", "shadowing-parameter", "shadowing-inner-const", "other-module", "global",
 ];
 
@@ -58,7 +58,7 @@ fn env(user_has: (bool, bool, bool)) -> Value {
 }
 
 pub fn gen_case(c: &mut Choices) -> Case {
-    let prov = PROVENANCE[c.weighted(&[8, 2, 1, 2, 2, 2, 2, 2, 1])];
+    let prov = PROVENANCE[c.weighted(&[8, 2, 2, 1, 2, 2, 2, 2, 2, 1])];
     let rt = c.chance(4, 5);
     let annotated = c.chance(3, 4);
     let setup = if annotated {
@@ -191,6 +191,16 @@ pub fn gen_case(c: &mut Choices) -> Case {
     // provenance prelude and callee
     let (prelude, callee, wrap_open, wrap_close): (String, &str, String, String) = match prov {
         "vue-named" => ("import { defineComponent } from \"vue\";\n".into(), "defineComponent", String::new(), String::new()),
+        "vue-aliased-plus-local-same-name" => (
+            if c.bool() {
+                "import { defineComponent as defineVueComponent } from \"vue\";\nfunction defineComponent(...a) { return rec(...a); }\n".into()
+            } else {
+                "import { defineComponent as defineVueComponent } from \"vue\";\nimport { defineComponent } from \"other\";\n".into()
+            },
+            "defineComponent",
+            String::new(),
+            String::new(),
+        ),
         "vue-aliased" => ("import { defineComponent as dc } from \"vue\";\n".into(), "dc", String::new(), String::new()),
         "vue-other-export-as-defineComponent" => ("import { h as defineComponent } from \"vue\";\n".into(), "defineComponent", String::new(), String::new()),
         "vue-namespace-member" => ("import * as V from \"vue\";\n".into(), "V.defineComponent", String::new(), String::new()),
@@ -425,7 +435,7 @@ impl Property for C20 {
     }
     fn required_labels(&self) -> Vec<&'static str> {
         vec![
-            "provenance=vue-named", "provenance=vue-aliased", "provenance=vue-namespace-member",
+            "provenance=vue-named", "provenance=vue-aliased", "provenance=vue-aliased-plus-local-same-name", "provenance=vue-namespace-member",
             "provenance=local-function", "provenance=shadowing-parameter", "provenance=shadowing-inner-const",
             "provenance=other-module", "provenance=global", "shape=literal-with-keys", "shape=literal-spread-first",
             "shape=literal-spread-last", "shape=identifier-options", "shape=call-options", "shape=spread-args-0",
